@@ -7,7 +7,7 @@ import Babylon.Exec.Cases
 
 namespace Babylon.Exec
 
-@[simp] theorem upd_same {α : Type} (f : Nat → α) (i : Nat) (v : α) : upd f i v i = v := by simp [upd]
+@[simp, exec_proj] theorem upd_same {α : Type} (f : Nat → α) (i : Nat) (v : α) : upd f i v i = v := by simp [upd]
 theorem upd_other {α : Type} (f : Nat → α) (i j : Nat) (v : α) (h : j ≠ i) : upd f i v j = f j := by simp [upd, h]
 theorem upd_apply {α : Type} (f : Nat → α) (i j : Nat) (v : α) : upd f i v j = if j = i then v else f j := rfl
 
@@ -17,287 +17,287 @@ def dispatchPc : Item → Pc
   | .stop => .wStopping
   | .wakeup => .wTop
 
-@[simp] theorem setPc_g (s : State) (t : Nat) (p : Pc) : (setPc s t p).g = s.g := by
+@[simp, exec_proj] theorem setPc_g (s : State) (t : Nat) (p : Pc) : (setPc s t p).g = s.g := by
   rfl
-@[simp] theorem setPc_l (s : State) (t : Nat) (p : Pc) : (setPc s t p).l = s.l := by
+@[simp, exec_proj] theorem setPc_l (s : State) (t : Nat) (p : Pc) : (setPc s t p).l = s.l := by
   rfl
-@[simp] theorem setPc_own (s : State) (t : Nat) (p : Pc) : (setPc s t p).own = s.own := by
+@[simp, exec_proj] theorem setPc_own (s : State) (t : Nat) (p : Pc) : (setPc s t p).own = s.own := by
   rfl
-@[simp] theorem setPc_owner (s : State) (t : Nat) (p : Pc) : (setPc s t p).owner = s.owner := by
+@[simp, exec_proj] theorem setPc_owner (s : State) (t : Nat) (p : Pc) : (setPc s t p).owner = s.owner := by
   rfl
-@[simp] theorem setPc_scope (s : State) (t : Nat) (p : Pc) : (setPc s t p).scope = s.scope := by
+@[simp, exec_proj] theorem setPc_scope (s : State) (t : Nat) (p : Pc) : (setPc s t p).scope = s.scope := by
   rfl
-@[simp] theorem setPc_running (s : State) (t : Nat) (p : Pc) : (setPc s t p).running = s.running := by
+@[simp, exec_proj] theorem setPc_running (s : State) (t : Nat) (p : Pc) : (setPc s t p).running = s.running := by
   rfl
-@[simp] theorem setPc_known (s : State) (t : Nat) (p : Pc) : (setPc s t p).known = s.known := by
+@[simp, exec_proj] theorem setPc_known (s : State) (t : Nat) (p : Pc) : (setPc s t p).known = s.known := by
   rfl
-@[simp] theorem setPc_loc (s : State) (t : Nat) (p : Pc) : (setPc s t p).loc = s.loc := by
+@[simp, exec_proj] theorem setPc_loc (s : State) (t : Nat) (p : Pc) : (setPc s t p).loc = s.loc := by
   rfl
-@[simp] theorem setPc_accepted (s : State) (t : Nat) (p : Pc) : (setPc s t p).accepted = s.accepted := by
+@[simp, exec_proj] theorem setPc_accepted (s : State) (t : Nat) (p : Pc) : (setPc s t p).accepted = s.accepted := by
   rfl
-@[simp] theorem setPc_rejected (s : State) (t : Nat) (p : Pc) : (setPc s t p).rejected = s.rejected := by
+@[simp, exec_proj] theorem setPc_rejected (s : State) (t : Nat) (p : Pc) : (setPc s t p).rejected = s.rejected := by
   rfl
-@[simp] theorem setPc_preStop (s : State) (t : Nat) (p : Pc) : (setPc s t p).preStop = s.preStop := by
+@[simp, exec_proj] theorem setPc_preStop (s : State) (t : Nat) (p : Pc) : (setPc s t p).preStop = s.preStop := by
   rfl
-@[simp] theorem setPc_viaLocal (s : State) (t : Nat) (p : Pc) : (setPc s t p).viaLocal = s.viaLocal := by
+@[simp, exec_proj] theorem setPc_viaLocal (s : State) (t : Nat) (p : Pc) : (setPc s t p).viaLocal = s.viaLocal := by
   rfl
-@[simp] theorem setPc_runs (s : State) (t : Nat) (p : Pc) : (setPc s t p).runs = s.runs := by
+@[simp, exec_proj] theorem setPc_runs (s : State) (t : Nat) (p : Pc) : (setPc s t p).runs = s.runs := by
   rfl
-@[simp] theorem setPc_done (s : State) (t : Nat) (p : Pc) : (setPc s t p).done = s.done := by
+@[simp, exec_proj] theorem setPc_done (s : State) (t : Nat) (p : Pc) : (setPc s t p).done = s.done := by
   rfl
-@[simp] theorem setPc_futValid (s : State) (t : Nat) (p : Pc) : (setPc s t p).futValid = s.futValid := by
+@[simp, exec_proj] theorem setPc_futValid (s : State) (t : Nat) (p : Pc) : (setPc s t p).futValid = s.futValid := by
   rfl
-@[simp] theorem setPc_futReady (s : State) (t : Nat) (p : Pc) : (setPc s t p).futReady = s.futReady := by
+@[simp, exec_proj] theorem setPc_futReady (s : State) (t : Nat) (p : Pc) : (setPc s t p).futReady = s.futReady := by
   rfl
-@[simp] theorem setPc_stopCalled (s : State) (t : Nat) (p : Pc) : (setPc s t p).stopCalled = s.stopCalled := by
+@[simp, exec_proj] theorem setPc_stopCalled (s : State) (t : Nat) (p : Pc) : (setPc s t p).stopCalled = s.stopCalled := by
   rfl
-@[simp] theorem setPc_stopReturned (s : State) (t : Nat) (p : Pc) : (setPc s t p).stopReturned = s.stopReturned := by
+@[simp, exec_proj] theorem setPc_stopReturned (s : State) (t : Nat) (p : Pc) : (setPc s t p).stopReturned = s.stopReturned := by
   rfl
-@[simp] theorem setPc_exitTicket (s : State) (t : Nat) (p : Pc) : (setPc s t p).exitTicket = s.exitTicket := by
+@[simp, exec_proj] theorem setPc_exitTicket (s : State) (t : Nat) (p : Pc) : (setPc s t p).exitTicket = s.exitTicket := by
   rfl
-@[simp] theorem setPc_markers (s : State) (t : Nat) (p : Pc) : (setPc s t p).markers = s.markers := by
+@[simp, exec_proj] theorem setPc_markers (s : State) (t : Nat) (p : Pc) : (setPc s t p).markers = s.markers := by
   rfl
-@[simp] theorem setPc_gTicket (s : State) (t : Nat) (p : Pc) : (setPc s t p).gTicket = s.gTicket := by
+@[simp, exec_proj] theorem setPc_gTicket (s : State) (t : Nat) (p : Pc) : (setPc s t p).gTicket = s.gTicket := by
   rfl
-@[simp] theorem setPc_firstMarker (s : State) (t : Nat) (p : Pc) : (setPc s t p).firstMarker = s.firstMarker := by
+@[simp, exec_proj] theorem setPc_firstMarker (s : State) (t : Nat) (p : Pc) : (setPc s t p).firstMarker = s.firstMarker := by
   rfl
-@[simp] theorem setPc_stopper (s : State) (t : Nat) (p : Pc) : (setPc s t p).stopper = s.stopper := by
+@[simp, exec_proj] theorem setPc_stopper (s : State) (t : Nat) (p : Pc) : (setPc s t p).stopper = s.stopper := by
   rfl
-@[simp] theorem setPc_pc (s : State) (t : Nat) (p : Pc) : (setPc s t p).pc = upd s.pc t p := rfl
-@[simp] theorem acceptTask_g (s : State) (id : Nat) : (acceptTask s id).g = s.g := by
+@[simp, exec_proj] theorem setPc_pc (s : State) (t : Nat) (p : Pc) : (setPc s t p).pc = upd s.pc t p := rfl
+@[simp, exec_proj] theorem acceptTask_g (s : State) (id : Nat) : (acceptTask s id).g = s.g := by
   rfl
-@[simp] theorem acceptTask_l (s : State) (id : Nat) : (acceptTask s id).l = s.l := by
+@[simp, exec_proj] theorem acceptTask_l (s : State) (id : Nat) : (acceptTask s id).l = s.l := by
   rfl
-@[simp] theorem acceptTask_pc (s : State) (id : Nat) : (acceptTask s id).pc = s.pc := by
+@[simp, exec_proj] theorem acceptTask_pc (s : State) (id : Nat) : (acceptTask s id).pc = s.pc := by
   rfl
-@[simp] theorem acceptTask_own (s : State) (id : Nat) : (acceptTask s id).own = s.own := by
+@[simp, exec_proj] theorem acceptTask_own (s : State) (id : Nat) : (acceptTask s id).own = s.own := by
   rfl
-@[simp] theorem acceptTask_owner (s : State) (id : Nat) : (acceptTask s id).owner = s.owner := by
+@[simp, exec_proj] theorem acceptTask_owner (s : State) (id : Nat) : (acceptTask s id).owner = s.owner := by
   rfl
-@[simp] theorem acceptTask_scope (s : State) (id : Nat) : (acceptTask s id).scope = s.scope := by
+@[simp, exec_proj] theorem acceptTask_scope (s : State) (id : Nat) : (acceptTask s id).scope = s.scope := by
   rfl
-@[simp] theorem acceptTask_running (s : State) (id : Nat) : (acceptTask s id).running = s.running := by
+@[simp, exec_proj] theorem acceptTask_running (s : State) (id : Nat) : (acceptTask s id).running = s.running := by
   rfl
-@[simp] theorem acceptTask_known (s : State) (id : Nat) : (acceptTask s id).known = s.known := by
+@[simp, exec_proj] theorem acceptTask_known (s : State) (id : Nat) : (acceptTask s id).known = s.known := by
   rfl
-@[simp] theorem acceptTask_loc (s : State) (id : Nat) : (acceptTask s id).loc = s.loc := by
+@[simp, exec_proj] theorem acceptTask_loc (s : State) (id : Nat) : (acceptTask s id).loc = s.loc := by
   rfl
-@[simp] theorem acceptTask_rejected (s : State) (id : Nat) : (acceptTask s id).rejected = s.rejected := by
+@[simp, exec_proj] theorem acceptTask_rejected (s : State) (id : Nat) : (acceptTask s id).rejected = s.rejected := by
   rfl
-@[simp] theorem acceptTask_viaLocal (s : State) (id : Nat) : (acceptTask s id).viaLocal = s.viaLocal := by
+@[simp, exec_proj] theorem acceptTask_viaLocal (s : State) (id : Nat) : (acceptTask s id).viaLocal = s.viaLocal := by
   rfl
-@[simp] theorem acceptTask_runs (s : State) (id : Nat) : (acceptTask s id).runs = s.runs := by
+@[simp, exec_proj] theorem acceptTask_runs (s : State) (id : Nat) : (acceptTask s id).runs = s.runs := by
   rfl
-@[simp] theorem acceptTask_done (s : State) (id : Nat) : (acceptTask s id).done = s.done := by
+@[simp, exec_proj] theorem acceptTask_done (s : State) (id : Nat) : (acceptTask s id).done = s.done := by
   rfl
-@[simp] theorem acceptTask_futReady (s : State) (id : Nat) : (acceptTask s id).futReady = s.futReady := by
+@[simp, exec_proj] theorem acceptTask_futReady (s : State) (id : Nat) : (acceptTask s id).futReady = s.futReady := by
   rfl
-@[simp] theorem acceptTask_stopCalled (s : State) (id : Nat) : (acceptTask s id).stopCalled = s.stopCalled := by
+@[simp, exec_proj] theorem acceptTask_stopCalled (s : State) (id : Nat) : (acceptTask s id).stopCalled = s.stopCalled := by
   rfl
-@[simp] theorem acceptTask_stopReturned (s : State) (id : Nat) : (acceptTask s id).stopReturned = s.stopReturned := by
+@[simp, exec_proj] theorem acceptTask_stopReturned (s : State) (id : Nat) : (acceptTask s id).stopReturned = s.stopReturned := by
   rfl
-@[simp] theorem acceptTask_exitTicket (s : State) (id : Nat) : (acceptTask s id).exitTicket = s.exitTicket := by
+@[simp, exec_proj] theorem acceptTask_exitTicket (s : State) (id : Nat) : (acceptTask s id).exitTicket = s.exitTicket := by
   rfl
-@[simp] theorem acceptTask_markers (s : State) (id : Nat) : (acceptTask s id).markers = s.markers := by
+@[simp, exec_proj] theorem acceptTask_markers (s : State) (id : Nat) : (acceptTask s id).markers = s.markers := by
   rfl
-@[simp] theorem acceptTask_gTicket (s : State) (id : Nat) : (acceptTask s id).gTicket = s.gTicket := by
+@[simp, exec_proj] theorem acceptTask_gTicket (s : State) (id : Nat) : (acceptTask s id).gTicket = s.gTicket := by
   rfl
-@[simp] theorem acceptTask_firstMarker (s : State) (id : Nat) : (acceptTask s id).firstMarker = s.firstMarker := by
+@[simp, exec_proj] theorem acceptTask_firstMarker (s : State) (id : Nat) : (acceptTask s id).firstMarker = s.firstMarker := by
   rfl
-@[simp] theorem acceptTask_stopper (s : State) (id : Nat) : (acceptTask s id).stopper = s.stopper := by
+@[simp, exec_proj] theorem acceptTask_stopper (s : State) (id : Nat) : (acceptTask s id).stopper = s.stopper := by
   rfl
-@[simp] theorem acceptTask_accepted (s : State) (id : Nat) : (acceptTask s id).accepted = upd s.accepted id true := rfl
-@[simp] theorem acceptTask_futValid (s : State) (id : Nat) : (acceptTask s id).futValid = upd s.futValid id true := rfl
-@[simp] theorem acceptTask_preStop (s : State) (id : Nat) : (acceptTask s id).preStop = upd s.preStop id (!s.stopCalled) := rfl
-@[simp] theorem claimLocal_g (s : State) (k i : Nat) : (claimLocal s k i).g = s.g := by
+@[simp, exec_proj] theorem acceptTask_accepted (s : State) (id : Nat) : (acceptTask s id).accepted = upd s.accepted id true := rfl
+@[simp, exec_proj] theorem acceptTask_futValid (s : State) (id : Nat) : (acceptTask s id).futValid = upd s.futValid id true := rfl
+@[simp, exec_proj] theorem acceptTask_preStop (s : State) (id : Nat) : (acceptTask s id).preStop = upd s.preStop id (!s.stopCalled) := rfl
+@[simp, exec_proj] theorem claimLocal_g (s : State) (k i : Nat) : (claimLocal s k i).g = s.g := by
   rfl
-@[simp] theorem claimLocal_pc (s : State) (k i : Nat) : (claimLocal s k i).pc = s.pc := by
+@[simp, exec_proj] theorem claimLocal_pc (s : State) (k i : Nat) : (claimLocal s k i).pc = s.pc := by
   rfl
-@[simp] theorem claimLocal_own (s : State) (k i : Nat) : (claimLocal s k i).own = s.own := by
+@[simp, exec_proj] theorem claimLocal_own (s : State) (k i : Nat) : (claimLocal s k i).own = s.own := by
   rfl
-@[simp] theorem claimLocal_owner (s : State) (k i : Nat) : (claimLocal s k i).owner = s.owner := by
+@[simp, exec_proj] theorem claimLocal_owner (s : State) (k i : Nat) : (claimLocal s k i).owner = s.owner := by
   rfl
-@[simp] theorem claimLocal_scope (s : State) (k i : Nat) : (claimLocal s k i).scope = s.scope := by
+@[simp, exec_proj] theorem claimLocal_scope (s : State) (k i : Nat) : (claimLocal s k i).scope = s.scope := by
   rfl
-@[simp] theorem claimLocal_running (s : State) (k i : Nat) : (claimLocal s k i).running = s.running := by
+@[simp, exec_proj] theorem claimLocal_running (s : State) (k i : Nat) : (claimLocal s k i).running = s.running := by
   rfl
-@[simp] theorem claimLocal_known (s : State) (k i : Nat) : (claimLocal s k i).known = s.known := by
+@[simp, exec_proj] theorem claimLocal_known (s : State) (k i : Nat) : (claimLocal s k i).known = s.known := by
   rfl
-@[simp] theorem claimLocal_loc (s : State) (k i : Nat) : (claimLocal s k i).loc = s.loc := by
+@[simp, exec_proj] theorem claimLocal_loc (s : State) (k i : Nat) : (claimLocal s k i).loc = s.loc := by
   rfl
-@[simp] theorem claimLocal_accepted (s : State) (k i : Nat) : (claimLocal s k i).accepted = s.accepted := by
+@[simp, exec_proj] theorem claimLocal_accepted (s : State) (k i : Nat) : (claimLocal s k i).accepted = s.accepted := by
   rfl
-@[simp] theorem claimLocal_rejected (s : State) (k i : Nat) : (claimLocal s k i).rejected = s.rejected := by
+@[simp, exec_proj] theorem claimLocal_rejected (s : State) (k i : Nat) : (claimLocal s k i).rejected = s.rejected := by
   rfl
-@[simp] theorem claimLocal_preStop (s : State) (k i : Nat) : (claimLocal s k i).preStop = s.preStop := by
+@[simp, exec_proj] theorem claimLocal_preStop (s : State) (k i : Nat) : (claimLocal s k i).preStop = s.preStop := by
   rfl
-@[simp] theorem claimLocal_viaLocal (s : State) (k i : Nat) : (claimLocal s k i).viaLocal = s.viaLocal := by
+@[simp, exec_proj] theorem claimLocal_viaLocal (s : State) (k i : Nat) : (claimLocal s k i).viaLocal = s.viaLocal := by
   rfl
-@[simp] theorem claimLocal_runs (s : State) (k i : Nat) : (claimLocal s k i).runs = s.runs := by
+@[simp, exec_proj] theorem claimLocal_runs (s : State) (k i : Nat) : (claimLocal s k i).runs = s.runs := by
   rfl
-@[simp] theorem claimLocal_done (s : State) (k i : Nat) : (claimLocal s k i).done = s.done := by
+@[simp, exec_proj] theorem claimLocal_done (s : State) (k i : Nat) : (claimLocal s k i).done = s.done := by
   rfl
-@[simp] theorem claimLocal_futValid (s : State) (k i : Nat) : (claimLocal s k i).futValid = s.futValid := by
+@[simp, exec_proj] theorem claimLocal_futValid (s : State) (k i : Nat) : (claimLocal s k i).futValid = s.futValid := by
   rfl
-@[simp] theorem claimLocal_futReady (s : State) (k i : Nat) : (claimLocal s k i).futReady = s.futReady := by
+@[simp, exec_proj] theorem claimLocal_futReady (s : State) (k i : Nat) : (claimLocal s k i).futReady = s.futReady := by
   rfl
-@[simp] theorem claimLocal_stopCalled (s : State) (k i : Nat) : (claimLocal s k i).stopCalled = s.stopCalled := by
+@[simp, exec_proj] theorem claimLocal_stopCalled (s : State) (k i : Nat) : (claimLocal s k i).stopCalled = s.stopCalled := by
   rfl
-@[simp] theorem claimLocal_stopReturned (s : State) (k i : Nat) : (claimLocal s k i).stopReturned = s.stopReturned := by
+@[simp, exec_proj] theorem claimLocal_stopReturned (s : State) (k i : Nat) : (claimLocal s k i).stopReturned = s.stopReturned := by
   rfl
-@[simp] theorem claimLocal_exitTicket (s : State) (k i : Nat) : (claimLocal s k i).exitTicket = s.exitTicket := by
+@[simp, exec_proj] theorem claimLocal_exitTicket (s : State) (k i : Nat) : (claimLocal s k i).exitTicket = s.exitTicket := by
   rfl
-@[simp] theorem claimLocal_markers (s : State) (k i : Nat) : (claimLocal s k i).markers = s.markers := by
+@[simp, exec_proj] theorem claimLocal_markers (s : State) (k i : Nat) : (claimLocal s k i).markers = s.markers := by
   rfl
-@[simp] theorem claimLocal_gTicket (s : State) (k i : Nat) : (claimLocal s k i).gTicket = s.gTicket := by
+@[simp, exec_proj] theorem claimLocal_gTicket (s : State) (k i : Nat) : (claimLocal s k i).gTicket = s.gTicket := by
   rfl
-@[simp] theorem claimLocal_firstMarker (s : State) (k i : Nat) : (claimLocal s k i).firstMarker = s.firstMarker := by
+@[simp, exec_proj] theorem claimLocal_firstMarker (s : State) (k i : Nat) : (claimLocal s k i).firstMarker = s.firstMarker := by
   rfl
-@[simp] theorem claimLocal_stopper (s : State) (k i : Nat) : (claimLocal s k i).stopper = s.stopper := by
+@[simp, exec_proj] theorem claimLocal_stopper (s : State) (k i : Nat) : (claimLocal s k i).stopper = s.stopper := by
   rfl
-@[simp] theorem claimLocal_l (s : State) (k i : Nat) : (claimLocal s k i).l = upd s.l k { (s.l k).setSt i .free with popIdx := i + 1 } := rfl
-@[simp] theorem dispatch_g (s : State) (w : Nat) (x : Item) (tk : Option Nat) : (dispatch s w x tk).g = s.g := by
+@[simp, exec_proj] theorem claimLocal_l (s : State) (k i : Nat) : (claimLocal s k i).l = upd s.l k { (s.l k).setSt i .free with popIdx := i + 1 } := rfl
+@[simp, exec_proj] theorem dispatch_g (s : State) (w : Nat) (x : Item) (tk : Option Nat) : (dispatch s w x tk).g = s.g := by
   cases x <;> rfl
-@[simp] theorem dispatch_l (s : State) (w : Nat) (x : Item) (tk : Option Nat) : (dispatch s w x tk).l = s.l := by
+@[simp, exec_proj] theorem dispatch_l (s : State) (w : Nat) (x : Item) (tk : Option Nat) : (dispatch s w x tk).l = s.l := by
   cases x <;> rfl
-@[simp] theorem dispatch_own (s : State) (w : Nat) (x : Item) (tk : Option Nat) : (dispatch s w x tk).own = s.own := by
+@[simp, exec_proj] theorem dispatch_own (s : State) (w : Nat) (x : Item) (tk : Option Nat) : (dispatch s w x tk).own = s.own := by
   cases x <;> rfl
-@[simp] theorem dispatch_owner (s : State) (w : Nat) (x : Item) (tk : Option Nat) : (dispatch s w x tk).owner = s.owner := by
+@[simp, exec_proj] theorem dispatch_owner (s : State) (w : Nat) (x : Item) (tk : Option Nat) : (dispatch s w x tk).owner = s.owner := by
   cases x <;> rfl
-@[simp] theorem dispatch_scope (s : State) (w : Nat) (x : Item) (tk : Option Nat) : (dispatch s w x tk).scope = s.scope := by
+@[simp, exec_proj] theorem dispatch_scope (s : State) (w : Nat) (x : Item) (tk : Option Nat) : (dispatch s w x tk).scope = s.scope := by
   cases x <;> rfl
-@[simp] theorem dispatch_running (s : State) (w : Nat) (x : Item) (tk : Option Nat) : (dispatch s w x tk).running = s.running := by
+@[simp, exec_proj] theorem dispatch_running (s : State) (w : Nat) (x : Item) (tk : Option Nat) : (dispatch s w x tk).running = s.running := by
   cases x <;> rfl
-@[simp] theorem dispatch_known (s : State) (w : Nat) (x : Item) (tk : Option Nat) : (dispatch s w x tk).known = s.known := by
+@[simp, exec_proj] theorem dispatch_known (s : State) (w : Nat) (x : Item) (tk : Option Nat) : (dispatch s w x tk).known = s.known := by
   cases x <;> rfl
-@[simp] theorem dispatch_accepted (s : State) (w : Nat) (x : Item) (tk : Option Nat) : (dispatch s w x tk).accepted = s.accepted := by
+@[simp, exec_proj] theorem dispatch_accepted (s : State) (w : Nat) (x : Item) (tk : Option Nat) : (dispatch s w x tk).accepted = s.accepted := by
   cases x <;> rfl
-@[simp] theorem dispatch_rejected (s : State) (w : Nat) (x : Item) (tk : Option Nat) : (dispatch s w x tk).rejected = s.rejected := by
+@[simp, exec_proj] theorem dispatch_rejected (s : State) (w : Nat) (x : Item) (tk : Option Nat) : (dispatch s w x tk).rejected = s.rejected := by
   cases x <;> rfl
-@[simp] theorem dispatch_preStop (s : State) (w : Nat) (x : Item) (tk : Option Nat) : (dispatch s w x tk).preStop = s.preStop := by
+@[simp, exec_proj] theorem dispatch_preStop (s : State) (w : Nat) (x : Item) (tk : Option Nat) : (dispatch s w x tk).preStop = s.preStop := by
   cases x <;> rfl
-@[simp] theorem dispatch_viaLocal (s : State) (w : Nat) (x : Item) (tk : Option Nat) : (dispatch s w x tk).viaLocal = s.viaLocal := by
+@[simp, exec_proj] theorem dispatch_viaLocal (s : State) (w : Nat) (x : Item) (tk : Option Nat) : (dispatch s w x tk).viaLocal = s.viaLocal := by
   cases x <;> rfl
-@[simp] theorem dispatch_runs (s : State) (w : Nat) (x : Item) (tk : Option Nat) : (dispatch s w x tk).runs = s.runs := by
+@[simp, exec_proj] theorem dispatch_runs (s : State) (w : Nat) (x : Item) (tk : Option Nat) : (dispatch s w x tk).runs = s.runs := by
   cases x <;> rfl
-@[simp] theorem dispatch_done (s : State) (w : Nat) (x : Item) (tk : Option Nat) : (dispatch s w x tk).done = s.done := by
+@[simp, exec_proj] theorem dispatch_done (s : State) (w : Nat) (x : Item) (tk : Option Nat) : (dispatch s w x tk).done = s.done := by
   cases x <;> rfl
-@[simp] theorem dispatch_futValid (s : State) (w : Nat) (x : Item) (tk : Option Nat) : (dispatch s w x tk).futValid = s.futValid := by
+@[simp, exec_proj] theorem dispatch_futValid (s : State) (w : Nat) (x : Item) (tk : Option Nat) : (dispatch s w x tk).futValid = s.futValid := by
   cases x <;> rfl
-@[simp] theorem dispatch_futReady (s : State) (w : Nat) (x : Item) (tk : Option Nat) : (dispatch s w x tk).futReady = s.futReady := by
+@[simp, exec_proj] theorem dispatch_futReady (s : State) (w : Nat) (x : Item) (tk : Option Nat) : (dispatch s w x tk).futReady = s.futReady := by
   cases x <;> rfl
-@[simp] theorem dispatch_stopCalled (s : State) (w : Nat) (x : Item) (tk : Option Nat) : (dispatch s w x tk).stopCalled = s.stopCalled := by
+@[simp, exec_proj] theorem dispatch_stopCalled (s : State) (w : Nat) (x : Item) (tk : Option Nat) : (dispatch s w x tk).stopCalled = s.stopCalled := by
   cases x <;> rfl
-@[simp] theorem dispatch_stopReturned (s : State) (w : Nat) (x : Item) (tk : Option Nat) : (dispatch s w x tk).stopReturned = s.stopReturned := by
+@[simp, exec_proj] theorem dispatch_stopReturned (s : State) (w : Nat) (x : Item) (tk : Option Nat) : (dispatch s w x tk).stopReturned = s.stopReturned := by
   cases x <;> rfl
-@[simp] theorem dispatch_markers (s : State) (w : Nat) (x : Item) (tk : Option Nat) : (dispatch s w x tk).markers = s.markers := by
+@[simp, exec_proj] theorem dispatch_markers (s : State) (w : Nat) (x : Item) (tk : Option Nat) : (dispatch s w x tk).markers = s.markers := by
   cases x <;> rfl
-@[simp] theorem dispatch_gTicket (s : State) (w : Nat) (x : Item) (tk : Option Nat) : (dispatch s w x tk).gTicket = s.gTicket := by
+@[simp, exec_proj] theorem dispatch_gTicket (s : State) (w : Nat) (x : Item) (tk : Option Nat) : (dispatch s w x tk).gTicket = s.gTicket := by
   cases x <;> rfl
-@[simp] theorem dispatch_firstMarker (s : State) (w : Nat) (x : Item) (tk : Option Nat) : (dispatch s w x tk).firstMarker = s.firstMarker := by
+@[simp, exec_proj] theorem dispatch_firstMarker (s : State) (w : Nat) (x : Item) (tk : Option Nat) : (dispatch s w x tk).firstMarker = s.firstMarker := by
   cases x <;> rfl
-@[simp] theorem dispatch_stopper (s : State) (w : Nat) (x : Item) (tk : Option Nat) : (dispatch s w x tk).stopper = s.stopper := by
+@[simp, exec_proj] theorem dispatch_stopper (s : State) (w : Nat) (x : Item) (tk : Option Nat) : (dispatch s w x tk).stopper = s.stopper := by
   cases x <;> rfl
-@[simp] theorem dispatch_pc (s : State) (w : Nat) (x : Item) (tk : Option Nat) : (dispatch s w x tk).pc = upd s.pc w (dispatchPc x) := by
+@[simp, exec_proj] theorem dispatch_pc (s : State) (w : Nat) (x : Item) (tk : Option Nat) : (dispatch s w x tk).pc = upd s.pc w (dispatchPc x) := by
   cases x <;> rfl
 theorem dispatch_loc (s : State) (w : Nat) (x : Item) (tk : Option Nat) : (dispatch s w x tk).loc = (match x with | .task id => upd s.loc id (.hand w) | _ => s.loc) := by
   cases x <;> rfl
-@[simp] theorem dispatch_loc_task (s : State) (w id : Nat) (tk : Option Nat) : (dispatch s w (.task id) tk).loc = upd s.loc id (.hand w) := rfl
-@[simp] theorem dispatch_loc_stop (s : State) (w : Nat) (tk : Option Nat) : (dispatch s w .stop tk).loc = s.loc := rfl
-@[simp] theorem dispatch_loc_wakeup (s : State) (w : Nat) (tk : Option Nat) : (dispatch s w .wakeup tk).loc = s.loc := rfl
-@[simp] theorem dispatch_exitTicket_task (s : State) (w id : Nat) (tk : Option Nat) : (dispatch s w (.task id) tk).exitTicket = s.exitTicket := rfl
-@[simp] theorem dispatch_exitTicket_stop (s : State) (w : Nat) (tk : Option Nat) : (dispatch s w .stop tk).exitTicket = upd s.exitTicket w tk := rfl
-@[simp] theorem dispatch_exitTicket_wakeup (s : State) (w : Nat) (tk : Option Nat) : (dispatch s w .wakeup tk).exitTicket = s.exitTicket := rfl
-@[simp] theorem forward_g (s : State) (t k : Nat) (x : Item) : (forward s t k x).g = s.g := by
+@[simp, exec_proj] theorem dispatch_loc_task (s : State) (w id : Nat) (tk : Option Nat) : (dispatch s w (.task id) tk).loc = upd s.loc id (.hand w) := rfl
+@[simp, exec_proj] theorem dispatch_loc_stop (s : State) (w : Nat) (tk : Option Nat) : (dispatch s w .stop tk).loc = s.loc := rfl
+@[simp, exec_proj] theorem dispatch_loc_wakeup (s : State) (w : Nat) (tk : Option Nat) : (dispatch s w .wakeup tk).loc = s.loc := rfl
+@[simp, exec_proj] theorem dispatch_exitTicket_task (s : State) (w id : Nat) (tk : Option Nat) : (dispatch s w (.task id) tk).exitTicket = s.exitTicket := rfl
+@[simp, exec_proj] theorem dispatch_exitTicket_stop (s : State) (w : Nat) (tk : Option Nat) : (dispatch s w .stop tk).exitTicket = upd s.exitTicket w tk := rfl
+@[simp, exec_proj] theorem dispatch_exitTicket_wakeup (s : State) (w : Nat) (tk : Option Nat) : (dispatch s w .wakeup tk).exitTicket = s.exitTicket := rfl
+@[simp, exec_proj] theorem forward_g (s : State) (t k : Nat) (x : Item) : (forward s t k x).g = s.g := by
   cases x <;> rfl
-@[simp] theorem forward_l (s : State) (t k : Nat) (x : Item) : (forward s t k x).l = s.l := by
+@[simp, exec_proj] theorem forward_l (s : State) (t k : Nat) (x : Item) : (forward s t k x).l = s.l := by
   cases x <;> rfl
-@[simp] theorem forward_own (s : State) (t k : Nat) (x : Item) : (forward s t k x).own = s.own := by
+@[simp, exec_proj] theorem forward_own (s : State) (t k : Nat) (x : Item) : (forward s t k x).own = s.own := by
   cases x <;> rfl
-@[simp] theorem forward_owner (s : State) (t k : Nat) (x : Item) : (forward s t k x).owner = s.owner := by
+@[simp, exec_proj] theorem forward_owner (s : State) (t k : Nat) (x : Item) : (forward s t k x).owner = s.owner := by
   cases x <;> rfl
-@[simp] theorem forward_scope (s : State) (t k : Nat) (x : Item) : (forward s t k x).scope = s.scope := by
+@[simp, exec_proj] theorem forward_scope (s : State) (t k : Nat) (x : Item) : (forward s t k x).scope = s.scope := by
   cases x <;> rfl
-@[simp] theorem forward_running (s : State) (t k : Nat) (x : Item) : (forward s t k x).running = s.running := by
+@[simp, exec_proj] theorem forward_running (s : State) (t k : Nat) (x : Item) : (forward s t k x).running = s.running := by
   cases x <;> rfl
-@[simp] theorem forward_known (s : State) (t k : Nat) (x : Item) : (forward s t k x).known = s.known := by
+@[simp, exec_proj] theorem forward_known (s : State) (t k : Nat) (x : Item) : (forward s t k x).known = s.known := by
   cases x <;> rfl
-@[simp] theorem forward_accepted (s : State) (t k : Nat) (x : Item) : (forward s t k x).accepted = s.accepted := by
+@[simp, exec_proj] theorem forward_accepted (s : State) (t k : Nat) (x : Item) : (forward s t k x).accepted = s.accepted := by
   cases x <;> rfl
-@[simp] theorem forward_rejected (s : State) (t k : Nat) (x : Item) : (forward s t k x).rejected = s.rejected := by
+@[simp, exec_proj] theorem forward_rejected (s : State) (t k : Nat) (x : Item) : (forward s t k x).rejected = s.rejected := by
   cases x <;> rfl
-@[simp] theorem forward_preStop (s : State) (t k : Nat) (x : Item) : (forward s t k x).preStop = s.preStop := by
+@[simp, exec_proj] theorem forward_preStop (s : State) (t k : Nat) (x : Item) : (forward s t k x).preStop = s.preStop := by
   cases x <;> rfl
-@[simp] theorem forward_viaLocal (s : State) (t k : Nat) (x : Item) : (forward s t k x).viaLocal = s.viaLocal := by
+@[simp, exec_proj] theorem forward_viaLocal (s : State) (t k : Nat) (x : Item) : (forward s t k x).viaLocal = s.viaLocal := by
   cases x <;> rfl
-@[simp] theorem forward_runs (s : State) (t k : Nat) (x : Item) : (forward s t k x).runs = s.runs := by
+@[simp, exec_proj] theorem forward_runs (s : State) (t k : Nat) (x : Item) : (forward s t k x).runs = s.runs := by
   cases x <;> rfl
-@[simp] theorem forward_done (s : State) (t k : Nat) (x : Item) : (forward s t k x).done = s.done := by
+@[simp, exec_proj] theorem forward_done (s : State) (t k : Nat) (x : Item) : (forward s t k x).done = s.done := by
   cases x <;> rfl
-@[simp] theorem forward_futValid (s : State) (t k : Nat) (x : Item) : (forward s t k x).futValid = s.futValid := by
+@[simp, exec_proj] theorem forward_futValid (s : State) (t k : Nat) (x : Item) : (forward s t k x).futValid = s.futValid := by
   cases x <;> rfl
-@[simp] theorem forward_futReady (s : State) (t k : Nat) (x : Item) : (forward s t k x).futReady = s.futReady := by
+@[simp, exec_proj] theorem forward_futReady (s : State) (t k : Nat) (x : Item) : (forward s t k x).futReady = s.futReady := by
   cases x <;> rfl
-@[simp] theorem forward_stopCalled (s : State) (t k : Nat) (x : Item) : (forward s t k x).stopCalled = s.stopCalled := by
+@[simp, exec_proj] theorem forward_stopCalled (s : State) (t k : Nat) (x : Item) : (forward s t k x).stopCalled = s.stopCalled := by
   cases x <;> rfl
-@[simp] theorem forward_stopReturned (s : State) (t k : Nat) (x : Item) : (forward s t k x).stopReturned = s.stopReturned := by
+@[simp, exec_proj] theorem forward_stopReturned (s : State) (t k : Nat) (x : Item) : (forward s t k x).stopReturned = s.stopReturned := by
   cases x <;> rfl
-@[simp] theorem forward_exitTicket (s : State) (t k : Nat) (x : Item) : (forward s t k x).exitTicket = s.exitTicket := by
+@[simp, exec_proj] theorem forward_exitTicket (s : State) (t k : Nat) (x : Item) : (forward s t k x).exitTicket = s.exitTicket := by
   cases x <;> rfl
-@[simp] theorem forward_markers (s : State) (t k : Nat) (x : Item) : (forward s t k x).markers = s.markers := by
+@[simp, exec_proj] theorem forward_markers (s : State) (t k : Nat) (x : Item) : (forward s t k x).markers = s.markers := by
   cases x <;> rfl
-@[simp] theorem forward_gTicket (s : State) (t k : Nat) (x : Item) : (forward s t k x).gTicket = s.gTicket := by
+@[simp, exec_proj] theorem forward_gTicket (s : State) (t k : Nat) (x : Item) : (forward s t k x).gTicket = s.gTicket := by
   cases x <;> rfl
-@[simp] theorem forward_firstMarker (s : State) (t k : Nat) (x : Item) : (forward s t k x).firstMarker = s.firstMarker := by
+@[simp, exec_proj] theorem forward_firstMarker (s : State) (t k : Nat) (x : Item) : (forward s t k x).firstMarker = s.firstMarker := by
   cases x <;> rfl
-@[simp] theorem forward_stopper (s : State) (t k : Nat) (x : Item) : (forward s t k x).stopper = s.stopper := by
+@[simp, exec_proj] theorem forward_stopper (s : State) (t k : Nat) (x : Item) : (forward s t k x).stopper = s.stopper := by
   cases x <;> rfl
-@[simp] theorem forward_pc (s : State) (t k : Nat) (x : Item) : (forward s t k x).pc = upd s.pc t (.gTake x (.bSweep k)) := by
+@[simp, exec_proj] theorem forward_pc (s : State) (t k : Nat) (x : Item) : (forward s t k x).pc = upd s.pc t (.gTake x (.bSweep k)) := by
   cases x <;> rfl
-@[simp] theorem forward_loc_task (s : State) (t k id : Nat) : (forward s t k (.task id)).loc = upd s.loc id (.hand t) := rfl
-@[simp] theorem forward_loc_stop (s : State) (t k : Nat) : (forward s t k .stop).loc = s.loc := rfl
-@[simp] theorem forward_loc_wakeup (s : State) (t k : Nat) : (forward s t k .wakeup).loc = s.loc := rfl
-@[simp] theorem onClaim_g (s : State) (t : Nat) (x : Item) (ctx : PopCtx) : (ctx.onClaim s t x).g = s.g := by
+@[simp, exec_proj] theorem forward_loc_task (s : State) (t k id : Nat) : (forward s t k (.task id)).loc = upd s.loc id (.hand t) := rfl
+@[simp, exec_proj] theorem forward_loc_stop (s : State) (t k : Nat) : (forward s t k .stop).loc = s.loc := rfl
+@[simp, exec_proj] theorem forward_loc_wakeup (s : State) (t k : Nat) : (forward s t k .wakeup).loc = s.loc := rfl
+@[simp, exec_proj] theorem onClaim_g (s : State) (t : Nat) (x : Item) (ctx : PopCtx) : (ctx.onClaim s t x).g = s.g := by
   cases ctx <;> cases x <;> rfl
-@[simp] theorem onClaim_l (s : State) (t : Nat) (x : Item) (ctx : PopCtx) : (ctx.onClaim s t x).l = s.l := by
+@[simp, exec_proj] theorem onClaim_l (s : State) (t : Nat) (x : Item) (ctx : PopCtx) : (ctx.onClaim s t x).l = s.l := by
   cases ctx <;> cases x <;> rfl
-@[simp] theorem onClaim_own (s : State) (t : Nat) (x : Item) (ctx : PopCtx) : (ctx.onClaim s t x).own = s.own := by
+@[simp, exec_proj] theorem onClaim_own (s : State) (t : Nat) (x : Item) (ctx : PopCtx) : (ctx.onClaim s t x).own = s.own := by
   cases ctx <;> cases x <;> rfl
-@[simp] theorem onClaim_owner (s : State) (t : Nat) (x : Item) (ctx : PopCtx) : (ctx.onClaim s t x).owner = s.owner := by
+@[simp, exec_proj] theorem onClaim_owner (s : State) (t : Nat) (x : Item) (ctx : PopCtx) : (ctx.onClaim s t x).owner = s.owner := by
   cases ctx <;> cases x <;> rfl
-@[simp] theorem onClaim_scope (s : State) (t : Nat) (x : Item) (ctx : PopCtx) : (ctx.onClaim s t x).scope = s.scope := by
+@[simp, exec_proj] theorem onClaim_scope (s : State) (t : Nat) (x : Item) (ctx : PopCtx) : (ctx.onClaim s t x).scope = s.scope := by
   cases ctx <;> cases x <;> rfl
-@[simp] theorem onClaim_running (s : State) (t : Nat) (x : Item) (ctx : PopCtx) : (ctx.onClaim s t x).running = s.running := by
+@[simp, exec_proj] theorem onClaim_running (s : State) (t : Nat) (x : Item) (ctx : PopCtx) : (ctx.onClaim s t x).running = s.running := by
   cases ctx <;> cases x <;> rfl
-@[simp] theorem onClaim_known (s : State) (t : Nat) (x : Item) (ctx : PopCtx) : (ctx.onClaim s t x).known = s.known := by
+@[simp, exec_proj] theorem onClaim_known (s : State) (t : Nat) (x : Item) (ctx : PopCtx) : (ctx.onClaim s t x).known = s.known := by
   cases ctx <;> cases x <;> rfl
-@[simp] theorem onClaim_accepted (s : State) (t : Nat) (x : Item) (ctx : PopCtx) : (ctx.onClaim s t x).accepted = s.accepted := by
+@[simp, exec_proj] theorem onClaim_accepted (s : State) (t : Nat) (x : Item) (ctx : PopCtx) : (ctx.onClaim s t x).accepted = s.accepted := by
   cases ctx <;> cases x <;> rfl
-@[simp] theorem onClaim_rejected (s : State) (t : Nat) (x : Item) (ctx : PopCtx) : (ctx.onClaim s t x).rejected = s.rejected := by
+@[simp, exec_proj] theorem onClaim_rejected (s : State) (t : Nat) (x : Item) (ctx : PopCtx) : (ctx.onClaim s t x).rejected = s.rejected := by
   cases ctx <;> cases x <;> rfl
-@[simp] theorem onClaim_preStop (s : State) (t : Nat) (x : Item) (ctx : PopCtx) : (ctx.onClaim s t x).preStop = s.preStop := by
+@[simp, exec_proj] theorem onClaim_preStop (s : State) (t : Nat) (x : Item) (ctx : PopCtx) : (ctx.onClaim s t x).preStop = s.preStop := by
   cases ctx <;> cases x <;> rfl
-@[simp] theorem onClaim_viaLocal (s : State) (t : Nat) (x : Item) (ctx : PopCtx) : (ctx.onClaim s t x).viaLocal = s.viaLocal := by
+@[simp, exec_proj] theorem onClaim_viaLocal (s : State) (t : Nat) (x : Item) (ctx : PopCtx) : (ctx.onClaim s t x).viaLocal = s.viaLocal := by
   cases ctx <;> cases x <;> rfl
-@[simp] theorem onClaim_runs (s : State) (t : Nat) (x : Item) (ctx : PopCtx) : (ctx.onClaim s t x).runs = s.runs := by
+@[simp, exec_proj] theorem onClaim_runs (s : State) (t : Nat) (x : Item) (ctx : PopCtx) : (ctx.onClaim s t x).runs = s.runs := by
   cases ctx <;> cases x <;> rfl
-@[simp] theorem onClaim_done (s : State) (t : Nat) (x : Item) (ctx : PopCtx) : (ctx.onClaim s t x).done = s.done := by
+@[simp, exec_proj] theorem onClaim_done (s : State) (t : Nat) (x : Item) (ctx : PopCtx) : (ctx.onClaim s t x).done = s.done := by
   cases ctx <;> cases x <;> rfl
-@[simp] theorem onClaim_futValid (s : State) (t : Nat) (x : Item) (ctx : PopCtx) : (ctx.onClaim s t x).futValid = s.futValid := by
+@[simp, exec_proj] theorem onClaim_futValid (s : State) (t : Nat) (x : Item) (ctx : PopCtx) : (ctx.onClaim s t x).futValid = s.futValid := by
   cases ctx <;> cases x <;> rfl
-@[simp] theorem onClaim_futReady (s : State) (t : Nat) (x : Item) (ctx : PopCtx) : (ctx.onClaim s t x).futReady = s.futReady := by
+@[simp, exec_proj] theorem onClaim_futReady (s : State) (t : Nat) (x : Item) (ctx : PopCtx) : (ctx.onClaim s t x).futReady = s.futReady := by
   cases ctx <;> cases x <;> rfl
-@[simp] theorem onClaim_stopCalled (s : State) (t : Nat) (x : Item) (ctx : PopCtx) : (ctx.onClaim s t x).stopCalled = s.stopCalled := by
+@[simp, exec_proj] theorem onClaim_stopCalled (s : State) (t : Nat) (x : Item) (ctx : PopCtx) : (ctx.onClaim s t x).stopCalled = s.stopCalled := by
   cases ctx <;> cases x <;> rfl
-@[simp] theorem onClaim_stopReturned (s : State) (t : Nat) (x : Item) (ctx : PopCtx) : (ctx.onClaim s t x).stopReturned = s.stopReturned := by
+@[simp, exec_proj] theorem onClaim_stopReturned (s : State) (t : Nat) (x : Item) (ctx : PopCtx) : (ctx.onClaim s t x).stopReturned = s.stopReturned := by
   cases ctx <;> cases x <;> rfl
-@[simp] theorem onClaim_markers (s : State) (t : Nat) (x : Item) (ctx : PopCtx) : (ctx.onClaim s t x).markers = s.markers := by
+@[simp, exec_proj] theorem onClaim_markers (s : State) (t : Nat) (x : Item) (ctx : PopCtx) : (ctx.onClaim s t x).markers = s.markers := by
   cases ctx <;> cases x <;> rfl
-@[simp] theorem onClaim_gTicket (s : State) (t : Nat) (x : Item) (ctx : PopCtx) : (ctx.onClaim s t x).gTicket = s.gTicket := by
+@[simp, exec_proj] theorem onClaim_gTicket (s : State) (t : Nat) (x : Item) (ctx : PopCtx) : (ctx.onClaim s t x).gTicket = s.gTicket := by
   cases ctx <;> cases x <;> rfl
-@[simp] theorem onClaim_firstMarker (s : State) (t : Nat) (x : Item) (ctx : PopCtx) : (ctx.onClaim s t x).firstMarker = s.firstMarker := by
+@[simp, exec_proj] theorem onClaim_firstMarker (s : State) (t : Nat) (x : Item) (ctx : PopCtx) : (ctx.onClaim s t x).firstMarker = s.firstMarker := by
   cases ctx <;> cases x <;> rfl
-@[simp] theorem onClaim_stopper (s : State) (t : Nat) (x : Item) (ctx : PopCtx) : (ctx.onClaim s t x).stopper = s.stopper := by
+@[simp, exec_proj] theorem onClaim_stopper (s : State) (t : Nat) (x : Item) (ctx : PopCtx) : (ctx.onClaim s t x).stopper = s.stopper := by
   cases ctx <;> cases x <;> rfl
 
 /-- pc after a successful `try_pop` in context `ctx` that obtained `x` -/
@@ -306,15 +306,15 @@ def claimPc (ctx : PopCtx) (x : Item) : Pc :=
   | .bal k => .gTake x (.bSweep k)
   | _ => dispatchPc x
 
-@[simp] theorem onClaim_pc (s : State) (t : Nat) (x : Item) (ctx : PopCtx) :
+@[simp, exec_proj] theorem onClaim_pc (s : State) (t : Nat) (x : Item) (ctx : PopCtx) :
     (ctx.onClaim s t x).pc = upd s.pc t (claimPc ctx x) := by
   cases ctx <;> cases x <;> rfl
-@[simp] theorem onClaim_loc_task (s : State) (t id : Nat) (ctx : PopCtx) :
+@[simp, exec_proj] theorem onClaim_loc_task (s : State) (t id : Nat) (ctx : PopCtx) :
     (ctx.onClaim s t (.task id)).loc = upd s.loc id (.hand t) := by
   cases ctx <;> rfl
-@[simp] theorem onClaim_loc_stop (s : State) (t : Nat) (ctx : PopCtx) : (ctx.onClaim s t .stop).loc = s.loc := by
+@[simp, exec_proj] theorem onClaim_loc_stop (s : State) (t : Nat) (ctx : PopCtx) : (ctx.onClaim s t .stop).loc = s.loc := by
   cases ctx <;> rfl
-@[simp] theorem onClaim_loc_wakeup (s : State) (t : Nat) (ctx : PopCtx) : (ctx.onClaim s t .wakeup).loc = s.loc := by
+@[simp, exec_proj] theorem onClaim_loc_wakeup (s : State) (t : Nat) (ctx : PopCtx) : (ctx.onClaim s t .wakeup).loc = s.loc := by
   cases ctx <;> rfl
 theorem onClaim_exitTicket (s : State) (t : Nat) (x : Item) (ctx : PopCtx) :
     (ctx.onClaim s t x).exitTicket = (match ctx, x with | .bal _, _ => s.exitTicket | _, .stop => upd s.exitTicket t none | _, _ => s.exitTicket) := by
